@@ -487,7 +487,10 @@ META = {
         "interpreter and one device in which pages end with that object neither painted nor ended by n (alone, or after a painted object), each followed by "
         "a page painting one of 3 fixed programs, plus pages that invoke a form XObject ending the same way before painting; family forms: every caller CTM of the 7-matrix pool x "
         "every form XObject /Matrix of a 5-matrix pool (translation, scale(2,3), rot90, shear, identity) with three painted paths inside, and x every pair "
-        "of matrices for a form that invokes a second form under q cm Q and then paints its own path; a closed path painted after Do checks the caller's CTM; "
+        "of matrices for a form that invokes a second form under q cm Q and then paints its own path; a closed path painted after Do checks the caller's CTM; 40 further forms "
+        "that set w / d / g G rg RG k K / cs+sc / CS+SC (10 setters, with and without q..Q inside the form, directly and through a second form) invoked from a page with known "
+        "line width, dash and colours under 2 CTMs, followed outside any q/Q by 're B', a one-operand sc and SC, and a closed path painted with B*: "
+        "every attribute and the caller's colour spaces must be what they were before Do; "
         "family leak: "
         "a page (or form, or earlier document in the same process) defining ICCBased N=3 / N=4 colour spaces by name, then pages that do not define the name and "
         "execute 'cs|CS /Name' followed by a one-operand sc|SC and the probe (3 definitions x 4 arrangements x 4 users). A case = one path object x end operator x CTM, or one gs history + probe; non-trivial = at least one shape expected. "
@@ -699,11 +702,32 @@ for _i, _m in enumerate(FORM_MATS):
         FORMS[f"Nf{_i}x{_j}"] = {"matrix": _m, "events": NEST_BODY, "xobjects": {"In": f"Fm{_j}"}}
 
 
+# forms that change the graphics state: with and without q/Q of their own, directly and through another form.
+# Invoking a form is q, Matrix cm, paint, Q (ISO 8.10.1): afterwards the caller's state is what it was before.
+STATE_SETTERS = [
+    (("w", 5),), (("d", (2, 2), 1),), (("g", Fr(1, 4)),), (("G", Fr(3, 4)),), (("rg", 0, 1, Fr(1, 4)),), (("RG", 1, Fr(1, 4), 0),),
+    (("k", 1, 0, Fr(1, 4), 0),), (("K", 0, 1, 0, Fr(1, 4)),), (("cs", "/DeviceRGB"), ("sc", Fr(1, 2), Fr(1, 4), 1)),
+    (("CS", "/DeviceCMYK"), ("SC", Fr(1, 4), Fr(1, 2), Fr(3, 4), 0)),
+]
+STATE_FORMS: List[str] = []
+for _i, _set in enumerate(STATE_SETTERS):
+    for _w in (0, 1):
+        _body = _set + (("re", 30, 10, -12, 20), ("B",))
+        FORMS[f"St{_i}w{_w}"] = {"matrix": FORM_MATS[0], "events": ((("q",),) + _body + (("Q",),)) if _w else _body, "xobjects": {}}
+        FORMS[f"Sn{_i}w{_w}"] = {"matrix": FORM_MATS[1], "events": (("Do", "/In"), ("m", 40, 56), ("l", 8, 32), ("S",)),
+                                 "xobjects": {"In": f"St{_i}w{_w}"}}
+        STATE_FORMS += [f"St{_i}w{_w}", f"Sn{_i}w{_w}"]
+CALLER_STATE = (("w", 2), ("d", (3, 1), 0), ("g", Fr(1, 2)), ("G", Fr(1, 4)))
+# painted after Do, outside any q/Q: every graphics-state attribute is observed, then a one-operand sc/SC (valid only if
+# the caller's colour spaces are still DeviceGray) and another path
+AFTER_STATE = (("re", 8, 16, 16, 32), ("B",), ("sc", Fr(3, 4)), ("SC", Fr(1, 8)), ("m", 24, 48), ("l", 40, 56), ("l", 8, 32), ("h",), ("B*",))
+
+
 def forms_check(st):
     """every caller CTM of the pool x every form Matrix (and every Matrix pair for form-in-form): most pairs do not commute"""
     d = G.Doc()
     refs: Dict[str, Any] = {}
-    for key in sorted(FORMS, key=lambda k: (k[0] != "F", k)):
+    for key in sorted(FORMS, key=lambda k: (bool(FORMS[k]["xobjects"]), k)):  # leaf forms first
         f = FORMS[key]
         res: Dict[str, Any] = {}
         if f["xobjects"]:
@@ -714,7 +738,14 @@ def forms_check(st):
     pages, progs = [], []
     for cm in CTMS:
         for key in sorted(FORMS):
+            if key in STATE_FORMS:
+                continue
             evs = (("w", 2),) + ((cm,) if cm else ()) + (("Do", "/" + key),) + AFTER_FORM
+            progs.append(evs)
+            pages.append((gfx.program(evs), page_res))
+    for cm in (None, CTMS[2]):
+        for key in STATE_FORMS:
+            evs = CALLER_STATE + ((cm,) if cm else ()) + (("Do", "/" + key),) + AFTER_STATE
             progs.append(evs)
             pages.append((gfx.program(evs), page_res))
     data = gfx.pages_doc(pages, doc=d)
@@ -730,7 +761,7 @@ def forms_check(st):
         exp = list(m.out)
         obs = observe(lt) if exc is None else gfx.exc_sig(exc)
         bad = diff(exp, obs) if exc is None else ["exception"]
-        st.case(None, nontrivial=True, outcome=h64(repr([(o["cls"], o["pts"]) for o in obs]) if exc is None else obs))
+        st.case(None, nontrivial=True, outcome=h64(repr([(o["cls"], o["pts"], o["lw"], repr(o["dash"]), o["sc"], o["nc"]) for o in obs]) if exc is None else obs))
         if bad:
             sig = "C16/path-in-form-xobject:" + ",".join(sorted(bad))
             st.violation(sig, {"family": "forms", "events": list(evs), "pdf": data if st.viol_counts[sig] < 1 else b""},
